@@ -113,6 +113,24 @@ def run(ctx, rep):
     rep.rule('R15.e', 'the limit a topic stores is the resolved one (ServerDefault replaced by the configured default, too-small limits rejected) at every site that writes it: create, update and load', floor=3, analysis='A9 provenance forms')
     resolved_limit_forms(ctx, rep, 'R15.e')
 
+    # ------------------------------------------------------------ R15.f the size the limit is compared with is exact
+    rep.rule('R15.f', 'the topic size the limit is compared with is exact: the stream / topic / partition size counters move together and a segment subtracts at delete what it added over its life (bytes left behind by a purge fill the topic for good)', floor=8, analysis='A6/A9')
+    from props.c16 import counter_symmetry
+    counter_symmetry(ctx, rep, 'R15.f', 'R15.f', labels=('size',))
+
+    # ------------------------------------------------------------ R15.g the limit survives a restart
+    from props.c05 import replay_consumes_payload
+    replay_consumes_payload(ctx, rep, 'R15.g')
+
+    # ------------------------------------------------------------ R15.h the configured limit reaches the server
+    from props.c13 import handler_consumes_request
+    handler_consumes_request(ctx, rep, 'R15.h', only={'CreateTopic', 'UpdateTopic'})
+
+    # ------------------------------------------------------------ R15.i the topic's own limit goes down the call chain
+    rep.rule('R15.i', 'the size limit handed down a call chain (handler, System, Stream, Topic, loader) is at every hop the caller\'s own limit: the parameter or the field of that name of the entity at hand, or that value resolved by Topic::get_max_topic_size', floor=12, analysis='A9')
+    from props import storage_forms as sf_
+    sf_.settings_passthrough(ctx, rep, 'R15.i', ('max_topic_size',))
+
 
 def resolved_limit_forms(ctx, rep, rid):
     """shared with C05: create, update and load store the limit resolved by the same function (what the runtime accepts, the loader accepts)"""
